@@ -10,6 +10,7 @@ from ..cfg import no_exc
 from ..oracles import load, python_mutators
 from ..report import Registry, chain, sub
 from .c38 import _decorators as _coll_decorators, _delegations, _interfaces as _coll_interfaces
+from ._helpers_rob_h1 import local_defs, nform, tri_edges
 
 R = Registry(
     "C50",
@@ -60,6 +61,35 @@ def _super_calls(fn, names):
     return out
 
 
+def _owner_fact(fnode):
+    """fact oracle for `tri`: the collection adapter of the list (the expression `collection_adapter(self)` or a local
+    bound only to it) is truthy, and so is its `_referenced_by_owner`"""
+    defs = {k: list(v) for k, v in local_defs(fnode).items()}
+    for n in walk_local(fnode):          # `if (adapter := collection_adapter(self)) and ...`
+        if isinstance(n, ast.NamedExpr) and isinstance(n.target, ast.Name) and None in defs.get(n.target.id, []):
+            vs = defs[n.target.id]
+            vs[vs.index(None)] = n.value
+
+    def is_adapter(e):
+        if isinstance(e, ast.Call) and (call_name(e) or "").split(".")[-1] == "collection_adapter" and len(e.args) == 1 \
+                and unparse(e.args[0]) == "self":
+            return True
+        if isinstance(e, ast.NamedExpr):
+            return is_adapter(e.value)
+        if isinstance(e, ast.Name):
+            vs = defs.get(e.id)
+            return bool(vs) and all(v is not None and is_adapter(v) for v in vs)
+        return False
+
+    def fact(e):
+        if is_adapter(e):
+            return True
+        if isinstance(e, ast.Attribute) and e.attr == "_referenced_by_owner" and is_adapter(e.value):
+            return True
+        return None
+    return fact
+
+
 @R.rule("C50-R1", floor=12, template="T-EXHAUST/T-PATH",
         desc="every list mutator is overridden in OrderingList with position (re)numbering on every normal path "
              "around the underlying mutation, or funnels into an overridden method through the instrumented "
@@ -74,8 +104,12 @@ def r1(ctx):
         key = f"{OL}::OrderingList.{m}"
         f = cls.methods.get(m)
         if f is not None and not f.type_only:
+            # judged on the normal form: private helpers inlined at the call, call-free locals resolved -- an extracted
+            # `self._renumber_if_owned()` or a boolean local `attached = adapter and adapter._referenced_by_owner`
+            # is read as the code it stands for.  The rule's own vocabulary (renumbering calls, list mutators) is kept.
+            f = nform(ctx, f, keep=set(ORDER_CALLS) | set(muts))
             g = ctx.cfg(f)
-            pm = f.module.parents()
+            pm = f.pm
             whole = [i for n in ("_reorder", "reorder") for i in g.find_calls(f"self.{n}")]
             single, loops = [], []
             for c in calls_in(f.node):
@@ -99,11 +133,16 @@ def r1(ctx):
                              f"index of the elements behind it as well")
             if not sup and not dele:
                 probs.append("override neither performs the underlying list mutation nor delegates to an overridden mutator")
-            # the only tolerated way to skip renumbering: the list is no longer the owner's collection
-            owner_tests = {n.id for n in g.nodes if n.kind == "test" and "_referenced_by_owner" in unparse(n.stmt.test)}
+            # the only tolerated way to skip renumbering: the list is not (or no longer) the owner's collection.  Paths are
+            # judged under the FACT "the list has a collection adapter that is referenced by its owner": every branch
+            # outcome that fact refutes is cut, however the test is spelled (compound `and`, nested ifs, early return,
+            # `is not None`, inverted if/else)
+            owner_fact = _owner_fact(f.node)
+            cut = tri_edges(g, owner_fact)
+            owner_tests = {a for a, _ in cut}
 
             def ok_edge(a, b, l):
-                return l != "exc" and not (a in owner_tests and l == "false")
+                return l != "exc" and (a, l) not in cut
             for c in sup:
                 for nid in g.nodes_containing(c):
                     after = g.must_pass([nid], [g.exit], order_nodes, edge_ok=ok_edge)
@@ -142,10 +181,22 @@ class _Unmodelled(Exception):
 class _PyRaise(Exception):
     """the modelled code raised a Python exception (IndexError from list.pop on a bad index, ...)"""
 
+    def __init__(self, etype, text=None):
+        super().__init__(text or etype)
+        self.etype = etype
+
 
 class _Return(Exception):
     def __init__(self, value):
         self.value = value
+
+
+class _Break(Exception):
+    pass
+
+
+class _Continue(Exception):
+    pass
 
 
 class _Opaque:
@@ -164,20 +215,60 @@ class _Ent:
         return self.name
 
 
+class _Bound:
+    """a callable value: a method of the list itself (`self.m`), the underlying list operation (`super().m`,
+    `list.m` + explicit self), the ordering function, a method of a local python list, `int.__index__`"""
+    __slots__ = ("kind", "name", "obj")
+
+    def __init__(self, kind, name, obj=None):
+        self.kind, self.name, self.obj = kind, name, obj
+
+    def __repr__(self):
+        return f"<{self.kind}.{self.name}>"
+
+
 _SELF = object()
+_SUPER = object()
+_LISTCLS = object()
 _ORDERING_ATTR = object()
 _BIN = {ast.Add: lambda a, b: a + b, ast.Sub: lambda a, b: a - b, ast.Mult: lambda a, b: a * b,
         ast.FloorDiv: lambda a, b: a // b, ast.Mod: lambda a, b: a % b}
 _CMP = {ast.Lt: lambda a, b: a < b, ast.LtE: lambda a, b: a <= b, ast.Gt: lambda a, b: a > b, ast.GtE: lambda a, b: a >= b,
         ast.Eq: lambda a, b: a == b, ast.NotEq: lambda a, b: a != b, ast.Is: lambda a, b: a is b,
         ast.IsNot: lambda a, b: a is not b, ast.In: lambda a, b: a in b, ast.NotIn: lambda a, b: a not in b}
+_LIST_OPS = ("insert", "append", "pop", "remove", "__setitem__", "__delitem__", "reverse", "clear", "extend", "index", "count",
+             "__getitem__", "__len__", "__contains__", "__iter__")
+_PYLIST_OPS = ("append", "extend", "insert", "pop", "remove", "index", "count", "reverse", "clear", "copy")
+
+
+def _exc_matches(etype, handler_type):
+    """does `except <handler_type>` catch an exception of builtin type name `etype`?  None = not understood"""
+    import builtins
+    if handler_type is None:
+        return True
+    names = [unparse(x) for x in handler_type.elts] if isinstance(handler_type, ast.Tuple) else [unparse(handler_type)]
+    et = getattr(builtins, etype, None)
+    res = False
+    for n in names:
+        ht = getattr(builtins, n.split(".")[-1], None)
+        if n == etype:
+            return True
+        if isinstance(et, type) and isinstance(ht, type) and issubclass(ht, BaseException):
+            if issubclass(et, ht):
+                return True
+        elif not (isinstance(ht, type) and issubclass(ht, BaseException)):
+            res = None          # a non-builtin exception class: cannot tell
+    return res
 
 
 class _OLModel:
     """Abstract execution of OrderingList's own source (AST) against a model list: `items` are entities, `pos` their
     ordering attribute; the underlying list operations have Python's semantics, `ordering_func` is count_from_0.
-    Nothing of /repo is imported or run: the statements are interpreted here, over a deliberately tiny subset of
-    Python -- anything outside it raises _Unmodelled (the check then ends with exit 2, never with a verdict)."""
+    Nothing of /repo is imported or run: the statements are interpreted here, over a subset of Python that covers the
+    everyday ways of writing such methods (early return or positive guard, nested or compound conditions, while/for
+    loops with break/continue, comprehensions, try/except/finally, keyword arguments, bound-method and value aliases,
+    extracted helper methods) -- anything outside it raises _Unmodelled (the check then ends with exit 2, never with a
+    verdict)."""
 
     def __init__(self, cls, n, reorder_on_append):
         self.cls = cls
@@ -197,38 +288,55 @@ class _OLModel:
                 return self.method_node(v.id)
         return None
 
-    def call_method(self, name, args, depth=0):
+    def call_method(self, name, args, depth=0, kwargs=None):
         fn = self.method_node(name)
         if fn is None:
             raise _Unmodelled(f"self.{name}() is not a method of OrderingList")
-        if depth > 6:
+        if depth > 8:
             raise _Unmodelled("call depth")
         a = fn.args
-        if a.vararg or a.posonlyargs:
+        if a.vararg:
             raise _Unmodelled(f"signature of {name}")
-        params = [x.arg for x in a.args][1:]
+        decos = {unparse(d).split(".")[-1].split("(")[0] for d in fn.decorator_list}
+        if decos - {"overload", "override", "final", "no_type_check"}:
+            if decos & {"staticmethod", "classmethod", "property"} or "contextmanager" in decos:
+                raise _Unmodelled(f"decorated method {name}")
+        kwargs = dict(kwargs or {})
+        params = [x.arg for x in a.posonlyargs + a.args][1:]
+        if len(args) > len(params):
+            raise _Unmodelled(f"{name}(): too many arguments")
         env = {"self": _SELF}
         defaults = dict(zip(params[len(params) - len(a.defaults):], a.defaults))
+        for kw, d in zip(a.kwonlyargs, a.kw_defaults):
+            params.append(kw.arg)
+            if d is not None:
+                defaults[kw.arg] = d
         for i, pn in enumerate(params):
             if i < len(args):
                 env[pn] = args[i]
+            elif pn in kwargs:
+                env[pn] = kwargs.pop(pn)
             elif pn in defaults:
                 env[pn] = self.ev(defaults[pn], env, depth)
             else:
                 raise _Unmodelled(f"{name}(): missing argument {pn}")
         if a.kwarg:
-            env[a.kwarg.arg] = {}
+            env[a.kwarg.arg] = kwargs
+        elif kwargs:
+            raise _Unmodelled(f"{name}(): unexpected keyword {sorted(kwargs)}")
         try:
             self.block(fn.body, env, depth)
         except _Return as r:
             return r.value
+        except (_Break, _Continue):
+            raise _Unmodelled("break/continue outside a loop")
         return None
 
     # ---- statements
     def block(self, body, env, depth):
         for st in body:
             self.steps += 1
-            if self.steps > 5000:
+            if self.steps > 20000:
                 raise _Unmodelled("step budget")
             if isinstance(st, ast.Expr):
                 if isinstance(st.value, ast.Constant):
@@ -239,49 +347,181 @@ class _OLModel:
                     continue
                 v = self.ev(st.value, env, depth)
                 for tg in (st.targets if isinstance(st, ast.Assign) else [st.target]):
-                    self.bind(tg, v, env)
+                    self.bind(tg, v, env, depth)
             elif isinstance(st, ast.AugAssign) and isinstance(st.target, ast.Name) and type(st.op) in _BIN:
+                if st.target.id not in env:
+                    raise _Unmodelled(f"name `{st.target.id}`")
                 env[st.target.id] = self.arith(_BIN[type(st.op)], env[st.target.id], self.ev(st.value, env, depth))
             elif isinstance(st, ast.If):
                 self.block(st.body if self.truth(self.ev(st.test, env, depth)) else st.orelse, env, depth)
-            elif isinstance(st, ast.For) and not st.orelse:
+            elif isinstance(st, ast.For):
                 it = self.ev(st.iter, env, depth)
+                if it is _SELF:
+                    it = list(self.items)
                 if not isinstance(it, (list, range, tuple)):
                     raise _Unmodelled(f"iteration over `{unparse(st.iter)}`")
+                broke = False
                 for v in list(it):
-                    self.bind(st.target, v, env)
-                    self.block(st.body, env, depth)
+                    self.bind(st.target, v, env, depth)
+                    try:
+                        self.block(st.body, env, depth)
+                    except _Break:
+                        broke = True
+                        break
+                    except _Continue:
+                        continue
+                if not broke:
+                    self.block(st.orelse, env, depth)
+            elif isinstance(st, ast.While):
+                broke = False
+                while self.truth(self.ev(st.test, env, depth)):
+                    self.steps += 1
+                    if self.steps > 20000:
+                        raise _Unmodelled("step budget")
+                    try:
+                        self.block(st.body, env, depth)
+                    except _Break:
+                        broke = True
+                        break
+                    except _Continue:
+                        continue
+                if not broke:
+                    self.block(st.orelse, env, depth)
+            elif isinstance(st, ast.Break):
+                raise _Break()
+            elif isinstance(st, ast.Continue):
+                raise _Continue()
             elif isinstance(st, ast.Return):
                 raise _Return(self.ev(st.value, env, depth) if st.value is not None else None)
             elif isinstance(st, ast.Pass):
                 pass
+            elif isinstance(st, ast.Assert):
+                if not self.truth(self.ev(st.test, env, depth)):
+                    raise _PyRaise("AssertionError")
+            elif isinstance(st, ast.Delete):
+                for tg in st.targets:
+                    if isinstance(tg, ast.Name) and tg.id in env:
+                        del env[tg.id]
+                    elif isinstance(tg, ast.Subscript) and not isinstance(tg.slice, ast.Slice):
+                        v = self.ev(tg.value, env, depth)
+                        i = self.ev(tg.slice, env, depth)
+                        if v is _SELF:
+                            self.call_self("__delitem__", [i], {}, depth)
+                        elif isinstance(v, list):
+                            self.pylist(v, "__delitem__", [i])
+                        else:
+                            raise _Unmodelled(f"`{unparse(st)[:50]}`")
+                    else:
+                        raise _Unmodelled(f"`{unparse(st)[:50]}`")
             elif isinstance(st, ast.Raise):
-                raise _PyRaise(unparse(st)[:60])
+                if st.exc is None:
+                    cur = env.get("__exc__")
+                    if cur is None:
+                        raise _Unmodelled("bare raise outside a handler")
+                    raise _PyRaise(cur)
+                e = st.exc.func if isinstance(st.exc, ast.Call) else st.exc
+                raise _PyRaise((dotted(e) or "Exception").split(".")[-1], unparse(st)[:60])
+            elif isinstance(st, ast.Try):
+                self.do_try(st, env, depth)
             else:
                 raise _Unmodelled(f"statement `{unparse(st)[:50]}`")
 
-    def bind(self, tg, v, env):
+    def do_try(self, st, env, depth):
+        try:
+            try:
+                self.block(st.body, env, depth)
+            except _PyRaise as ex:
+                for h in st.handlers:
+                    m = _exc_matches(ex.etype, h.type)
+                    if m is None:
+                        raise _Unmodelled(f"`except {unparse(h.type)}` for a {ex.etype}")
+                    if m:
+                        if h.name:
+                            env[h.name] = _Opaque()
+                        saved = env.get("__exc__")
+                        env["__exc__"] = ex.etype
+                        try:
+                            self.block(h.body, env, depth)
+                        finally:
+                            env["__exc__"] = saved
+                        break
+                else:
+                    raise
+            else:
+                self.block(st.orelse, env, depth)
+        finally:
+            # (python semantics: a finally body that completes normally lets the pending exception / return continue;
+            #  one that raises or returns replaces it -- exactly what this `finally` does with the model's signals)
+            self.block(st.finalbody, env, depth)
+
+    def bind(self, tg, v, env, depth=0):
         if isinstance(tg, ast.Name):
             env[tg.id] = v
-        elif isinstance(tg, ast.Tuple) and isinstance(v, (tuple, list)) and len(v) == len(tg.elts):
+        elif isinstance(tg, (ast.Tuple, ast.List)) and isinstance(v, (tuple, list)) and len(v) == len(tg.elts) \
+                and not any(isinstance(t, ast.Starred) for t in tg.elts):
             for t1, v1 in zip(tg.elts, v):
-                self.bind(t1, v1, env)
+                self.bind(t1, v1, env, depth)
+        elif isinstance(tg, ast.Subscript) and not isinstance(tg.slice, ast.Slice):
+            recv = self.ev(tg.value, env, depth)
+            i = self.ev(tg.slice, env, depth)
+            if recv is _SELF:
+                self.call_self("__setitem__", [i, v], {}, depth)
+            elif isinstance(recv, list):
+                self.pylist(recv, "__setitem__", [i, v])
+            elif isinstance(recv, dict):
+                recv[i] = v
+            else:
+                raise _Unmodelled(f"assignment target `{unparse(tg)}`")
         else:
             raise _Unmodelled(f"assignment target `{unparse(tg)}`")
 
     # ---- expressions
     @staticmethod
     def truth(v):
-        return True if isinstance(v, _Opaque) else bool(v)
+        if isinstance(v, (_Opaque, _Bound, _Ent)):
+            return True
+        if v is _SELF:
+            raise _Unmodelled("truth value of the list itself")
+        return bool(v)
 
     @staticmethod
     def arith(op, a, b):
         if isinstance(a, bool) or isinstance(b, bool) or not isinstance(a, int) or not isinstance(b, int):
+            if isinstance(a, list) and isinstance(b, list) and op is _BIN[ast.Add]:
+                return a + b
             raise _Unmodelled("arithmetic on a non-integer")
         try:
             return op(a, b)
         except ZeroDivisionError:
             raise _PyRaise("ZeroDivisionError")
+
+    def seq(self, v):
+        return self.items if v is _SELF else v
+
+    def comprehension(self, e, env, depth):
+        out = []
+
+        def rec(i, env2):
+            if i == len(e.generators):
+                if isinstance(e, ast.DictComp):
+                    raise _Unmodelled("dict comprehension")
+                out.append(self.ev(e.elt, env2, depth))
+                return
+            gen = e.generators[i]
+            if gen.is_async:
+                raise _Unmodelled("async comprehension")
+            it = self.seq(self.ev(gen.iter, env2, depth))
+            if not isinstance(it, (list, range, tuple)):
+                raise _Unmodelled(f"iteration over `{unparse(gen.iter)}`")
+            for v in list(it):
+                self.steps += 1
+                if self.steps > 20000:
+                    raise _Unmodelled("step budget")
+                self.bind(gen.target, v, env2, depth)
+                if all(self.truth(self.ev(c, env2, depth)) for c in gen.ifs):
+                    rec(i + 1, env2)
+        rec(0, dict(env))
+        return out
 
     def ev(self, e, env, depth):
         if isinstance(e, ast.Constant):
@@ -289,17 +529,34 @@ class _OLModel:
         if isinstance(e, ast.Name):
             if e.id in env:
                 return env[e.id]
+            if e.id == "list":
+                return _LISTCLS
             raise _Unmodelled(f"name `{e.id}`")
         if isinstance(e, ast.Tuple):
             return tuple(self.ev(x, env, depth) for x in e.elts)
+        if isinstance(e, ast.List):
+            return [self.ev(x, env, depth) for x in e.elts]
+        if isinstance(e, ast.JoinedStr):
+            return "<text>"
+        if isinstance(e, ast.NamedExpr) and isinstance(e.target, ast.Name):
+            v = self.ev(e.value, env, depth)
+            env[e.target.id] = v
+            return v
+        if isinstance(e, (ast.ListComp, ast.GeneratorExp, ast.SetComp)):
+            return self.comprehension(e, env, depth)
         if isinstance(e, ast.BinOp) and type(e.op) in _BIN:
-            return self.arith(_BIN[type(e.op)], self.ev(e.left, env, depth), self.ev(e.right, env, depth))
+            left, right = self.ev(e.left, env, depth), self.ev(e.right, env, depth)
+            if isinstance(left, str) and isinstance(e.op, (ast.Mod, ast.Add)):
+                return "<text>"
+            return self.arith(_BIN[type(e.op)], left, right)
         if isinstance(e, ast.UnaryOp):
             v = self.ev(e.operand, env, depth)
             if isinstance(e.op, ast.Not):
                 return not self.truth(v)
-            if isinstance(e.op, ast.USub) and isinstance(v, int):
+            if isinstance(e.op, ast.USub) and isinstance(v, int) and not isinstance(v, bool):
                 return -v
+            if isinstance(e.op, ast.UAdd) and isinstance(v, int) and not isinstance(v, bool):
+                return v
             raise _Unmodelled(f"`{unparse(e)}`")
         if isinstance(e, ast.BoolOp):
             v = None
@@ -318,15 +575,28 @@ class _OLModel:
                 right = self.ev(c, env, depth)
                 if type(op) not in _CMP:
                     raise _Unmodelled(f"`{unparse(e)}`")
-                if isinstance(left, _Opaque) or isinstance(right, _Opaque):
-                    raise _Unmodelled(f"comparison with an unknown value `{unparse(e)}`")
-                if right is _SELF:
-                    right = self.items
-                try:
-                    if not _CMP[type(op)](left, right):
-                        return False
-                except TypeError:
-                    raise _Unmodelled(f"`{unparse(e)}` compares {left!r} with {right!r}")
+                unknown = [x for x in (left, right) if isinstance(x, (_Opaque, _Bound))]
+                if unknown:
+                    # an object is never None; nothing else is known about it
+                    if isinstance(op, (ast.Is, ast.IsNot)) and (left is None or right is None):
+                        res = isinstance(op, ast.IsNot)
+                    else:
+                        raise _Unmodelled(f"comparison with an unknown value `{unparse(e)}`")
+                else:
+                    if right is _SELF and isinstance(op, (ast.In, ast.NotIn)):
+                        right = self.items
+                    if left is _SELF or right is _SELF:
+                        if isinstance(op, (ast.Is, ast.IsNot)):
+                            res = _CMP[type(op)](left, right)
+                        else:
+                            raise _Unmodelled(f"`{unparse(e)}` compares the list itself")
+                    else:
+                        try:
+                            res = _CMP[type(op)](left, right)
+                        except TypeError:
+                            raise _Unmodelled(f"`{unparse(e)}` compares {left!r} with {right!r}")
+                if not res:
+                    return False
                 left = right
             return True
         if isinstance(e, ast.Attribute):
@@ -336,22 +606,47 @@ class _OLModel:
                     return self.roa
                 if e.attr == "ordering_attr":
                     return _ORDERING_ATTR
+                if e.attr == "ordering_func":
+                    return _Bound("func", "ordering_func")
+                if self.method_node(e.attr) is not None:
+                    return _Bound("self", e.attr)
+                if e.attr in _LIST_OPS:                       # an inherited list method, not overridden
+                    return _Bound("list", e.attr)
                 raise _Unmodelled(f"attribute self.{e.attr}")
+            if v is _SUPER:
+                return _Bound("list", e.attr)
+            if v is _LISTCLS:
+                return _Bound("listcls", e.attr)
             if isinstance(v, _Opaque):
                 # `adapter._referenced_by_owner`: the model is a collection in use by its owner
                 return True if e.attr == "_referenced_by_owner" else _Opaque()
+            if isinstance(v, list) and e.attr in _PYLIST_OPS:
+                return _Bound("pylist", e.attr, v)
+            if isinstance(v, int) and not isinstance(v, bool) and e.attr == "__index__":
+                return _Bound("const", e.attr, v)
             raise _Unmodelled(f"`{unparse(e)}`")
         if isinstance(e, ast.Subscript):
-            v = self.ev(e.value, env, depth)
+            v = self.seq(self.ev(e.value, env, depth))
             if isinstance(e.slice, ast.Slice):
-                raise _Unmodelled("slice")
+                parts = [None if x is None else self.ev(x, env, depth) for x in (e.slice.lower, e.slice.upper, e.slice.step)]
+                if isinstance(v, (list, tuple, range)) and all(p is None or (isinstance(p, int) and not isinstance(p, bool)) for p in parts):
+                    try:
+                        r = v[slice(*parts)]
+                    except ValueError:
+                        raise _PyRaise("ValueError")
+                    return list(r) if isinstance(v, list) else r
+                raise _Unmodelled(f"slice `{unparse(e)}`")
             i = self.ev(e.slice, env, depth)
-            seq = self.items if v is _SELF else v
-            if isinstance(seq, (list, tuple, range)) and isinstance(i, int) and not isinstance(i, bool):
+            if isinstance(v, (list, tuple, range)) and isinstance(i, int) and not isinstance(i, bool):
                 try:
-                    return seq[i]
+                    return v[i]
                 except IndexError:
                     raise _PyRaise("IndexError")
+            if isinstance(v, dict):
+                try:
+                    return v[i]
+                except (KeyError, TypeError):
+                    raise _PyRaise("KeyError")
             raise _Unmodelled(f"`{unparse(e)}`")
         if isinstance(e, ast.Call):
             return self.call(e, env, depth)
@@ -364,75 +659,156 @@ class _OLModel:
             if name == "sort":
                 # an arbitrary permutation may result (the key is the caller's): reversal stands for it
                 name, args = "reverse", []
-            if name in ("insert", "append", "pop", "remove", "__setitem__", "__delitem__", "reverse", "clear", "extend", "index", "count"):
+            if name in _LIST_OPS:
                 before = list(L)
                 r = getattr(L, name)(*args)
                 self.mutated = self.mutated or before != L
+                if name == "__iter__":
+                    return list(L)
                 return r
         except (IndexError, ValueError, TypeError) as ex:
             raise _PyRaise(type(ex).__name__)
         raise _Unmodelled(f"list.{name}")
 
+    def pylist(self, lst, name, args):
+        try:
+            if name == "sort":
+                raise _Unmodelled("sort of a local list")
+            return getattr(lst, name)(*args)
+        except (IndexError, ValueError, TypeError) as ex:
+            raise _PyRaise(type(ex).__name__)
+
+    def call_self(self, name, args, kwargs, depth):
+        if self.method_node(name) is not None:
+            return self.call_method(name, args, depth + 1, kwargs)
+        if name in _LIST_OPS:
+            return self.listop(name, args)
+        raise _Unmodelled(f"self.{name}() is not a method of OrderingList")
+
     def call(self, c, env, depth):
         f = c.func
         if any(isinstance(a, ast.Starred) for a in c.args):
             raise _Unmodelled("star-args")
-        if isinstance(f, ast.Name) and f.id == "isinstance" and f.id not in env and len(c.args) == 2:
+        star_kw = [k for k in c.keywords if k.arg is None]
+        if isinstance(f, ast.Name) and f.id not in env:
+            return self.builtin(f.id, c, env, depth)
+        if isinstance(f, ast.Attribute) and isinstance(f.value, ast.Name) and f.value.id not in env and f.value.id != "list":
+            # module.function(...): operator.index() is understood, anything else (util.warn, log.debug) is assumed
+            # to have no effect on the list
+            args = [self.ev(a, env, depth) for a in c.args]
+            if f.value.id == "operator" and f.attr == "index" and len(args) == 1 and isinstance(args[0], int) and not isinstance(args[0], bool):
+                return args[0]
+            if any(a is _SELF or isinstance(a, _Ent) for a in args) and f.attr not in ("warn", "debug", "info", "warning", "error"):
+                raise _Unmodelled(f"`{unparse(c)[:50]}` is handed the list / an entity")
+            return _Opaque()
+        fv = self.ev(f, env, depth)
+        args = [self.ev(a, env, depth) for a in c.args]
+        kwargs = {k.arg: self.ev(k.value, env, depth) for k in c.keywords if k.arg is not None}
+        if isinstance(fv, _Bound):
+            if fv.kind == "self":
+                for k in star_kw:
+                    v = self.ev(k.value, env, depth)
+                    if not isinstance(v, dict):
+                        raise _Unmodelled("**kwargs")
+                    kwargs.update(v)
+                return self.call_method(fv.name, args, depth + 1, kwargs)
+            if fv.kind == "func":
+                params = ["index", "collection"]
+                if len(args) > 2 or set(kwargs) - set(params[len(args):]) or star_kw:
+                    raise _Unmodelled("ordering_func arguments")
+                full = dict(zip(params, args))
+                full.update(kwargs)
+                if set(full) != set(params) or full["collection"] is not _SELF or not isinstance(full["index"], int) \
+                        or isinstance(full["index"], bool):
+                    raise _Unmodelled("ordering_func arguments")
+                return full["index"]                               # count_from_0
+            if fv.kind in ("list", "listcls"):
+                if fv.kind == "listcls":
+                    if not args or args[0] is not _SELF:
+                        raise _Unmodelled(f"`{unparse(c)[:50]}`")
+                    args = args[1:]
+                if kwargs and fv.name != "sort":
+                    raise _Unmodelled(f"keyword arguments of list.{fv.name}")
+                return self.listop(fv.name, args)
+            if fv.kind == "pylist":
+                if kwargs or star_kw:
+                    raise _Unmodelled(f"`{unparse(c)[:50]}`")
+                return self.pylist(fv.obj, fv.name, args)
+            if fv.kind == "const" and not args and not kwargs:
+                return fv.obj
+            raise _Unmodelled(f"`{unparse(c)[:50]}`")
+        if isinstance(fv, _Opaque):
+            return _Opaque()          # a call on something that is not the list (logger, adapter): assumed effect-free
+        raise _Unmodelled(f"call `{unparse(c)[:50]}`")
+
+    def builtin(self, n, c, env, depth):
+        if n == "isinstance" and len(c.args) == 2 and not c.keywords:
             v = self.ev(c.args[0], env, depth)
-            tn = c.args[1].id if isinstance(c.args[1], ast.Name) else None
-            if isinstance(v, int) and not isinstance(v, bool) and tn in ("slice", "int"):
-                return tn == "int"
+            kinds = c.args[1].elts if isinstance(c.args[1], ast.Tuple) else [c.args[1]]
+            tns = [k.id if isinstance(k, ast.Name) else None for k in kinds]
+            if isinstance(v, int) and not isinstance(v, bool) and all(t in ("slice", "int") for t in tns):
+                return "int" in tns
+            raise _Unmodelled(f"`{unparse(c)}`")
+        if n == "super":
+            if not c.args or (len(c.args) == 2 and unparse(c.args[1]) == "self"):
+                return _SUPER
             raise _Unmodelled(f"`{unparse(c)}`")
         args = [self.ev(a, env, depth) for a in c.args]
-        if isinstance(f, ast.Attribute):
-            # super().m(...) / list.m(self, ...): the underlying list operation
-            if isinstance(f.value, ast.Call) and dotted(f.value.func) == "super":
-                return self.listop(f.attr, args)
-            if isinstance(f.value, ast.Name) and f.value.id == "list" and args and args[0] is _SELF:
-                return self.listop(f.attr, args[1:])
-            if isinstance(f.value, ast.Name) and f.value.id == "self" and env.get("self") is _SELF:
-                if f.attr == "ordering_func":
-                    if len(args) != 2 or args[1] is not _SELF or not isinstance(args[0], int):
-                        raise _Unmodelled("ordering_func arguments")
-                    return args[0]                               # count_from_0
-                return self.call_method(f.attr, args, depth + 1)
-            recv = self.ev(f.value, env, depth) if not isinstance(f.value, ast.Name) or f.value.id in env else _Opaque()
-            if recv is _SELF or isinstance(recv, (list, _Ent)):
-                raise _Unmodelled(f"`{unparse(c)[:50]}`")
-            return _Opaque()          # a call on something that is not the list (logger, adapter): assumed effect-free
-        if isinstance(f, ast.Name):
-            n = f.id
-            if n in env:
-                raise _Unmodelled(f"call of local `{n}`")
-            ints = all(isinstance(a, int) and not isinstance(a, bool) for a in args)
-            if n == "int" and len(args) == 1 and ints:
-                return args[0]
-            if n == "len" and len(args) == 1:
-                if args[0] is _SELF:
-                    return len(self.items)
-                if isinstance(args[0], (list, tuple, range)):
-                    return len(args[0])
-            if n in ("min", "max", "abs") and args and ints:
-                return {"min": min, "max": max, "abs": abs}[n](*args)
-            if n == "range" and args and ints:
+        kwargs = {k.arg: self.ev(k.value, env, depth) for k in c.keywords if k.arg is not None}
+        ints = all(isinstance(a, int) and not isinstance(a, bool) for a in args)
+        known = ("int", "len", "min", "max", "abs", "range", "enumerate", "list", "tuple", "reversed", "getattr", "setattr",
+                 "zip", "bool", "sorted", "iter", "next", "sum", "any", "all", "divmod", "slice", "type", "hasattr", "id")
+        if n == "enumerate" and set(kwargs) <= {"start"} and len(args) in (1, 2):
+            start = kwargs.get("start", args[1] if len(args) == 2 else 0)
+            seq = self.seq(args[0])
+            if isinstance(seq, (list, tuple, range)) and isinstance(start, int) and not isinstance(start, bool) \
+                    and not (len(args) == 2 and kwargs):
+                return list(enumerate(seq, start))
+            raise _Unmodelled(f"`{unparse(c)[:50]}`")
+        if kwargs and n in known:
+            raise _Unmodelled(f"`{unparse(c)[:50]}`")
+        if n == "int" and len(args) == 1 and ints:
+            return args[0]
+        if n == "bool" and len(args) == 1:
+            return self.truth(args[0])
+        if n == "len" and len(args) == 1:
+            seq = self.seq(args[0])
+            if isinstance(seq, (list, tuple, range)):
+                return len(seq)
+        if n in ("min", "max", "abs") and args and ints:
+            return {"min": min, "max": max, "abs": abs}[n](*args)
+        if n in ("min", "max") and len(args) == 1 and isinstance(args[0], (list, tuple, range)) and args[0] \
+                and all(isinstance(a, int) and not isinstance(a, bool) for a in args[0]):
+            return {"min": min, "max": max}[n](args[0])
+        if n == "divmod" and len(args) == 2 and ints and args[1] != 0:
+            return divmod(*args)
+        if n == "range" and args and ints:
+            try:
                 return range(*args)
-            if n == "enumerate" and len(args) in (1, 2) and (len(args) == 1 or isinstance(args[1], int)):
-                seq = self.items if args[0] is _SELF else args[0]
-                if isinstance(seq, (list, tuple, range)):
-                    return list(enumerate(seq, *args[1:]))
-            if n in ("list", "tuple", "reversed") and len(args) == 1:
-                seq = self.items if args[0] is _SELF else args[0]
-                if isinstance(seq, (list, tuple, range)):
-                    return list(reversed(seq)) if n == "reversed" else list(seq)
-            if n == "getattr" and len(args) >= 2 and isinstance(args[0], _Ent) and args[1] is _ORDERING_ATTR:
-                return self.pos.get(args[0])
-            if n == "setattr" and len(args) == 3 and isinstance(args[0], _Ent) and args[1] is _ORDERING_ATTR:
-                self.pos[args[0]] = args[2]
-                return None
-            if n in ("int", "len", "min", "max", "abs", "range", "enumerate", "list", "tuple", "reversed", "getattr", "setattr"):
-                raise _Unmodelled(f"`{unparse(c)[:50]}`")
-            return _Opaque()          # module-level helper (collection_adapter(self), util.warn ...): assumed effect-free
-        raise _Unmodelled(f"call `{unparse(c)[:50]}`")
+            except (TypeError, ValueError):
+                raise _PyRaise("ValueError")
+        if n == "zip" and args:
+            seqs = [self.seq(a) for a in args]
+            if all(isinstance(s, (list, tuple, range)) for s in seqs):
+                return list(zip(*seqs))
+        if n in ("list", "tuple", "reversed", "iter") and len(args) == 1:
+            seq = self.seq(args[0])
+            if isinstance(seq, (list, tuple, range)):
+                return list(reversed(seq)) if n == "reversed" else list(seq)
+        if n in ("list", "tuple") and not args:
+            return []
+        if n in ("any", "all") and len(args) == 1 and isinstance(args[0], (list, tuple)):
+            return {"any": any, "all": all}[n](self.truth(x) for x in args[0])
+        if n == "getattr" and len(args) >= 2 and isinstance(args[0], _Ent) and args[1] is _ORDERING_ATTR:
+            return self.pos.get(args[0])
+        if n == "setattr" and len(args) == 3 and isinstance(args[0], _Ent) and args[1] is _ORDERING_ATTR:
+            self.pos[args[0]] = args[2]
+            return None
+        if n in known:
+            raise _Unmodelled(f"`{unparse(c)[:50]}`")
+        if n in ("IndexError", "ValueError", "TypeError", "KeyError", "Exception", "AssertionError"):
+            return _Opaque()
+        return _Opaque()          # module-level helper (collection_adapter(self), util.warn ...): assumed effect-free
 
     # ---- verdict
     def mismatch(self):
@@ -538,6 +914,7 @@ def _is_col(e, al):
              "or is loudly unavailable; in-place operators return self")
 def r2(ctx):
     effects = load("python_mutator_effects.json")
+    all_muts = {m for t in APC for part in python_mutators(t) for m in part}
     for t, (cname, abcname) in APC.items():
         cls = ctx.index.cls(f"{AP}::{cname}")
         ctx.require(abcname in cls.base_exprs, f"{cname} no longer derives from collections.abc.{abcname}: {cls.base_exprs}")
@@ -567,6 +944,9 @@ def r2(ctx):
                     ctx.ok(key, f"{abcname} mixin method (funnels into the overridden primitives)", nontrivial=False)
                 continue
             ctx.functions_analysed.add(f.key)
+            # normal form: a private helper (`self._apply_delta(want, have)` shared by three mutators) is read at its call
+            # sites; the mutators themselves, the intermediary factory and the setter stay calls (the rule's vocabulary)
+            f = nform(ctx, f, keep=set(all_muts) | {"_create", "creator", "_set", "setter", "_get", "getter"}, alias="dotted")
             g = ctx.cfg(f)
             if g.exit not in g.reachable([g.entry]):
                 unsupported.append(m)
@@ -945,3 +1325,71 @@ R.mutant("benign-apdict-additions-as-difference-with-existing", AP,
              "        removals = existing - constants\n\n        for key, member in values.items() or ():"), None)
 R.mutant("benign-apdict-bulk-replace-assigns-every-value", AP,
          sub("            if key in additions:\n                self[key] = member\n" + DCONST, "            self[key] = member\n"), None)
+
+# ---- robustify (rob-H1): behaviour-preserving refactorings that must stay silent, and the same shapes broken
+_OE_OLD = ("        have = self._get_order_value(entity)\n\n        # Don't disturb existing ordering if reorder is False\n"
+           "        if have is not None and not reorder:\n            return\n\n"
+           "        should_be = self.ordering_func(index, self)\n        if have != should_be:\n"
+           "            self._set_order_value(entity, should_be)\n")
+
+
+def _oe_new(guard):
+    return ("        current = self._get_order_value(entity)\n\n"
+            f"        if {guard}:\n            ordering_func = self.ordering_func\n"
+            "            expected = ordering_func(index, self)\n            if current != expected:\n"
+            "                self._set_order_value(entity, expected)\n")
+
+
+_RM_OLD = "        if adapter and adapter._referenced_by_owner:\n            self._reorder()\n"
+_RM_FULL = ("    def remove(self, entity: _T) -> None:\n        super().remove(entity)\n\n"
+            "        adapter = collection_adapter(self)\n" + _RM_OLD)
+# rfH_1: renamed locals, early return -> positive guard, bound-method alias for ordering_func; compound `and` split
+R.mutant("benign-rob-order-entity-positive-guard-func-alias", OL, sub(_OE_OLD, _oe_new("reorder or current is None")), None)
+R.mutant("benign-rob-remove-owner-test-nested", OL,
+         sub(_RM_OLD, "        if adapter:\n            if adapter._referenced_by_owner:\n                self._reorder()\n"), None)
+R.mutant("benign-rob-remove-owner-test-early-return", OL,
+         sub(_RM_OLD, "        if not adapter or not adapter._referenced_by_owner:\n            return\n        self._reorder()\n"), None)
+R.mutant("benign-rob-remove-owner-test-boolean-local", OL,
+         sub(_RM_OLD, "        attached = adapter is not None and adapter._referenced_by_owner\n        if attached:\n            self._reorder()\n"), None)
+R.mutant("benign-rob-remove-renumbering-in-helper", OL,
+         sub(_RM_FULL, "    def remove(self, entity: _T) -> None:\n        super().remove(entity)\n        self._renumber_if_owned()\n\n"
+                       "    def _renumber_if_owned(self) -> None:\n        adapter = collection_adapter(self)\n" + _RM_OLD), None)
+R.mutant("benign-rob-reorder-while-loop-keyword-argument", OL,
+         sub("        for index, entity in enumerate(self):\n            self._order_entity(index, entity, True)\n",
+             "        index = 0\n        while index < len(self):\n            self._order_entity(index, self[index], reorder=True)\n            index += 1\n"), None)
+R.mutant("benign-rob-pop-renumbers-in-finally-of-success", OL,
+         sub("        entity = super().pop(index)\n        self._reorder()\n        return entity\n",
+             "        entity = super().pop(index)\n        try:\n            return entity\n        finally:\n            self._reorder()\n"), None)
+# ... and the same shapes with the property broken
+R.mutant("rob-order-entity-positive-guard-wrong-connective", OL, sub(_OE_OLD, _oe_new("reorder and current is None")), "C50-R3")
+R.mutant("rob-remove-nested-owner-test-inverted", OL,
+         sub(_RM_OLD, "        if adapter:\n            if not adapter._referenced_by_owner:\n                self._reorder()\n"), "C50-R1")
+R.mutant("rob-remove-helper-renumbers-only-when-not-owned", OL,
+         sub(_RM_FULL, "    def remove(self, entity: _T) -> None:\n        super().remove(entity)\n        self._renumber_if_owned()\n\n"
+                       "    def _renumber_if_owned(self) -> None:\n        adapter = collection_adapter(self)\n"
+                       "        if adapter and adapter._referenced_by_owner:\n            return\n        self._reorder()\n"), "C50-R1")
+R.mutant("rob-reorder-while-loop-skips-first", OL,
+         sub("        for index, entity in enumerate(self):\n            self._order_entity(index, entity, True)\n",
+             "        index = 1\n        while index < len(self):\n            self._order_entity(index, self[index], reorder=True)\n            index += 1\n"), "C50-R3")
+# rfH_2: the triplicated remove/add delta block of _AssociationSet extracted into one helper
+_DELTA = ("remove, add = have - want, want - have\n\n{i}for value in remove:\n{i}    self.remove(value)\n"
+          "{i}for value in add:\n{i}    self.add(value)\n")
+_DELTA_DEF = ("    def _apply_delta(self, want: Set[Any], have: Set[Any]) -> None:\n        remove, add = have - want, want - have\n\n"
+              "        for value in remove:\n            self.remove(value)\n{add}\n")
+_DELTA_ADD = "        for value in add:\n            self.add(value)\n"
+_IU = "    def intersection_update(self, *s: Iterable[Any]) -> None:\n"
+
+
+def _delta_refactor(helper_def, call8="self._apply_delta(want, have)\n", call12=None):
+    return chain(sub("        " + _DELTA.format(i="        "), "        " + call8, count=2),
+                 sub("            " + _DELTA.format(i="            "), "            " + (call12 or call8)),
+                 sub(_IU, helper_def + _IU))
+
+
+R.mutant("benign-rob-apset-delta-block-in-helper", AP, _delta_refactor(_DELTA_DEF.format(add=_DELTA_ADD)), None)
+R.mutant("benign-rob-apset-delta-block-in-module-function", AP,
+         chain(_delta_refactor("", "_apply_set_delta(self, want, have)\n"),
+               sub("class _AssociationSet(", "def _apply_set_delta(proxy: Any, want: Set[Any], have: Set[Any]) -> None:\n"
+                                              "    for value in have - want:\n        proxy.remove(value)\n"
+                                              "    for value in want - have:\n        proxy.add(value)\n\n\nclass _AssociationSet(")), None)
+R.mutant("rob-apset-delta-helper-never-adds", AP, _delta_refactor(_DELTA_DEF.format(add="")), "C50-R2")
